@@ -53,6 +53,22 @@ class Short_code(Code, DBC):
     """Represent a short code."""
 
 
+# a chain declared child first (the meta-model is only parsed, never executed, so this order is accepted)
+@invariant(lambda self: len(self) <= 3, "Tiny text at most 3 characters")
+class Tiny_text(Small_text, DBC):
+    """Represent a tiny text."""
+
+
+@invariant(lambda self: len(self) <= 10, "Small text at most 10 characters")
+class Small_text(Wide_text, DBC):
+    """Represent a small text."""
+
+
+@invariant(lambda self: len(self) >= 1, "Wide text non-empty")
+class Wide_text(str, DBC):
+    """Represent a wide text."""
+
+
 @invariant(lambda self: len(self) >= 1, "Blob non-empty")
 @invariant(lambda self: len(self) <= 4, "Blob at most 4 bytes")
 class Blob(bytearray, DBC):
@@ -126,9 +142,13 @@ class Ball(Thing):
     radius: int
     """Radius"""
 
-    def __init__(self, name: str, radius: int) -> None:
+    tiny: Optional[Tiny_text]
+    """Tiny text"""
+
+    def __init__(self, name: str, radius: int, tiny: Optional[Tiny_text] = None) -> None:
         Thing.__init__(self, name)
         self.radius = radius
+        self.tiny = tiny
 
 
 @invariant(lambda self: len(self.things) >= 1, "At least one thing")
@@ -285,6 +305,11 @@ def bounded(seed: int = 0, **_: Any) -> Dict[str, Any]:
             judge("empty list of labels", shelf(box(labels=[])), False)
             judge("three labels", shelf(box(labels=["A", "B", "C"])), False)
             judge("empty shelf", T.Shelf(things=[]), False)
+            judge("tiny text at its bounds", shelf(T.Ball(name="Round", radius=1, tiny="a"),
+                                                   T.Ball(name="Round", radius=1, tiny="abc")), True)
+            judge("tiny text shorter than the grand parent's minimum (declared after it)",
+                  shelf(T.Ball(name="Round", radius=1, tiny="")), False)
+            judge("tiny text longer than its own maximum", shelf(T.Ball(name="Round", radius=1, tiny="abcd")), False)
             judge("empty blob", shelf(box(data=bytearray(b""))), False)
             # five bytes are eight base64 characters, like four bytes: not expressible on the JSON text (excluded in C12)
             judge("blob longer than its maximum", shelf(box(data=bytearray(b"abcde"))), False, json_too=False)
